@@ -225,6 +225,18 @@ class bin_stream_file(bin_stream):
         self.bin.seek(val - self.base_address)
     offset = property(getoffset, setoffset)
 
+    def _getbytes(self, start, l=1):
+        if start + l - self.base_address > self.l:
+            raise IOError("not enough bytes in file")
+        if start - self.base_address < 0:
+            raise IOError("Negative offset")
+        # Read without moving the stream position
+        pos = self.bin.tell()
+        self.bin.seek(start - self.base_address)
+        data = self.bin.read(l)
+        self.bin.seek(pos)
+        return data
+
     def readbs(self, l=1):
         if self.offset + l - self.base_address > self.l:
             raise IOError("not enough bytes in file")
